@@ -146,6 +146,51 @@ theorem staleness_add (c : Cfg) (s s' : State) (b : Cur) (e : Ev) (t0 now : Nat)
   have hl : (readiness c (b.append e) now != .notReady) = true := by simpa using hready
   exact seal_after_ready c _ (b.append e) s.free now hl
 
+/-- the heartbeat iterations happen at logical times `ts` no more than `H` apart, the first one no
+    later than `H` after `t0` (H = the heartbeat period: `time.Sleep(100 ms)` plus scheduling slack) -/
+def TicksDense (H : Nat) : Nat → List Nat → Prop
+  | _, [] => True
+  | t0, t :: ts => t ≤ t0 + H ∧ TicksDense H t ts
+
+/-- among dense ticks, the first one after `D` comes no later than `D + H` -/
+theorem exists_tick_within (H t0 D : Nat) (ts : List Nat) (hd : TicksDense H t0 ts) (h0 : t0 ≤ D)
+    (hex : ∃ t ∈ ts, D < t) : ∃ t ∈ ts, D < t ∧ t ≤ D + H := by
+  induction ts generalizing t0 with
+  | nil => obtain ⟨t, ht, _⟩ := hex; cases ht
+  | cons t ts ih =>
+    obtain ⟨h1, h2⟩ := hd
+    by_cases hlt : D < t
+    · exact ⟨t, by simp, hlt, by omega⟩
+    · obtain ⟨t', ht', hgt⟩ := hex
+      have : t' ∈ ts := by
+        rcases List.mem_cons.1 ht' with rfl | h
+        · exact absurd hgt hlt
+        · exact h
+      obtain ⟨u, hu, hu1, hu2⟩ := ih t h2 (by omega) ⟨t', this, hgt⟩
+      exact ⟨u, List.mem_cons_of_mem _ hu, hu1, hu2⟩
+
+/-- **staleness with the heartbeat period as a parameter.** If heartbeat iterations are never more than
+    `H` apart, then a batch opened at `start` is flushed no later than `start + timeout + H`: there is
+    an iteration at a time `t` with `start + timeout < t ≤ start + timeout + H`, and at that iteration —
+    in whatever state the batcher is then, if the batch is still the current one — the heartbeat seals
+    it with all its events. The check reads `H` off every trace (reference-clock ticks between two
+    `h`) so that it cannot silently grow with FlushTimeout. -/
+theorem staleness_within_period (c : Cfg) (H start : Nat) (ts : List Nat)
+    (hd : TicksDense H start ts) (hex : ∃ t ∈ ts, start + c.timeout < t) :
+    ∃ t ∈ ts, start + c.timeout < t ∧ t ≤ start + c.timeout + H ∧
+      ∀ (s : State) (b : Cur) (t0 : Nat), s.cur = some b → b.start = start → b.evs ≠ [] →
+        s.locked = false → s.stopped = false →
+        ∃ s1 s2, step? c s (.heartbeat t0 t) = some s1 ∧ step? c s1 .sealB = some s2 ∧ s2.cur = none ∧
+          ∃ last, s2.full = s.full ++ [last] ∧ last.evs = b.evs := by
+  obtain ⟨t, ht, h1, h2⟩ := exists_tick_within H start (start + c.timeout) ts hd (by omega) hex
+  refine ⟨t, ht, h1, h2, ?_⟩
+  intro s b t0 hcur hstart hne hl hst
+  obtain ⟨s1, s2, st, e1, e2, e3, _, e5⟩ := staleness c s b t0 t hcur hne hl hst (by rw [hstart]; omega)
+  exact ⟨s1, s2, e1, e2, e3, _, e5, rfl⟩
+
+example : TicksDense 100 0 [30, 130, 230, 330] ∧ ∃ t ∈ [30, 130, 230, 330], 0 + 150 < t := by
+  refine ⟨by simp [TicksDense], 230, by simp, by omega⟩
+
 example : ∃ s, Run cfg2 [.add e1 0 0, .heartbeat 5 5, .heartbeat 11 11, .sealB] s ∧
     s.cur = none ∧ s.full.map (fun b => (b.evs, b.status)) = [([e1], .timeout)] := by
   refine ⟨_, rfl, rfl, ?_⟩; decide
